@@ -163,8 +163,10 @@ QString QXmppUtils::timezoneOffsetToString(int secs)
         return u"Z"_s;
     }
 
-    const QTime tzoTime = QTime(0, 0, 0).addSecs(qAbs(secs));
-    return (secs < 0 ? u"-"_s : u"+"_s) + tzoTime.toString(u"hh:mm"_s);
+    // not via QTime: it wraps at 24 hours ("+24:00" would be written as "+00:00")
+    const int minutes = int(qAbs(qint64(secs)) / 60);
+    return (secs < 0 ? u"-"_s : u"+"_s) +
+        u"%1:%2"_s.arg(minutes / 60, 2, 10, QChar(u'0')).arg(minutes % 60, 2, 10, QChar(u'0'));
 }
 
 /// Returns the domain for the given \a jid.
